@@ -84,6 +84,8 @@ struct World {
   fs: Vec<Option<FEnt>>,
   used: std::collections::HashSet<u32>,
   wakers: Vec<Waker>,
+  /// handles whose close() returned Ok (Receiver::is_closed ignores that flag)
+  closed: Vec<bool>,
 }
 
 fn ids(v: &[u32]) -> String {
@@ -107,6 +109,7 @@ impl World {
       fs: (0..NF).map(|_| None).collect(),
       used: Default::default(),
       wakers: (0..8).map(|i| Waker::from(Arc::new(CountWaker(i)))).collect(),
+      closed: vec![false; NH],
     }
   }
   fn live_futs(&self, h: usize) -> bool {
@@ -192,9 +195,13 @@ fn exec(w: &mut World, toks: &[&str], i: usize) -> (usize, String) {
     }
     "tr" | "rc" | "rt" => {
       let h = num(1);
+      let own_closed = w.closed.get(h).copied().unwrap_or(false);
       let r = match (op, w.hm(h)) {
         ("tr", Some(H::SRx(r))) => show_try_recv(r.try_recv()),
         ("tr", Some(H::ARx(r))) => show_try_recv(r.try_recv()),
+        // a blocking form that certainly has to wait is not executed (public observers only): the
+        // same token as the model's; anything else that sticks is caught by the watchdog as HANG
+        ("rc", Some(H::SRx(r))) if !own_closed && r.is_empty() && r.sender_count() > 0 => "WOULDBLOCK".into(),
         ("rc", Some(H::SRx(r))) => match r.recv() {
           Ok(p) => format!("v {}", take(p)),
           Err(_) => "disc".into(),
@@ -217,6 +224,9 @@ fn exec(w: &mut World, toks: &[&str], i: usize) -> (usize, String) {
         Some(H::ARx(t)) => t.close().is_ok(),
         _ => return bad(2),
       };
+      if r {
+        w.closed[h] = true;
+      }
       (2, if r { "ok".into() } else { "cerr".into() })
     }
     "dr" => {
@@ -225,6 +235,7 @@ fn exec(w: &mut World, toks: &[&str], i: usize) -> (usize, String) {
         return bad(2);
       }
       w.hs[h] = None;
+      w.closed[h] = false;
       (2, "ok".into())
     }
     "cn" => {
@@ -440,9 +451,13 @@ fn exec(w: &mut World, toks: &[&str], i: usize) -> (usize, String) {
     }
     "trb" | "rcb" => {
       let (h, max) = (num(1), num(2));
+      let own_closed = w.closed.get(h).copied().unwrap_or(false);
       let r = match (op, w.hm(h)) {
         ("trb", Some(H::SRx(t))) => t.try_recv_batch(max).map_err(|e| e == TryRecvError::Empty),
         ("trb", Some(H::ARx(t))) => t.try_recv_batch(max).map_err(|e| e == TryRecvError::Empty),
+        ("rcb", Some(H::SRx(t))) if max > 0 && !own_closed && t.is_empty() && t.sender_count() > 0 => {
+          return (3, "WOULDBLOCK".into())
+        }
         ("rcb", Some(H::SRx(t))) => t.recv_batch(max).map_err(|_| false),
         _ => return bad(3),
       };
